@@ -56,7 +56,7 @@ def ac12 (num : Nat) : Option Nat :=
   else
     let n := ((num &&& 0xfc0) <<< 1) ||| (num &&& 0x3f)
     match modeAToC (decodeId13 n) with
-    | some n => if n * 100 < 65536 then some (n * 100) else none
+    | some n => if n * 100 < 65536 ∧ 0 < n * 100 then some (n * 100) else none
     | none => none
 
 /-- `IdentityCode::read` applied to the 13-bit code: four hex-coded octal digits A B C D -/
